@@ -10,11 +10,11 @@ import apk as _apk
 _c09 = importlib.import_module("props.c09")
 _c19 = importlib.import_module("props.c19")
 
-TIE = "corr:pe-digest + pechecksum + merkle + ecdsa + msi-digest"
+TIE = "corr:pe-digest + pechecksum + merkle + ecdsa + msi-digest + xml-canon-vs-spec"
 TIE_THEOREM = ("Relic.Props.C05.pe_hash_eq_spec / fix_pe_checksum_eq_spec / pe_checksum_eq_spec / apk_digest_eq_spec / "
                "ecdsa_pack_fixed_width / msi_order_eq_spec / msi_prehash_eq_spec / msi_digest_eq_spec (models tied to lib/authenticode, signers/apk, lib/x509tools by differential execution)")
 RULE = ("ops of the models that carry the model-vs-specification theorems: " + _pe.RULE + " || C09 subset: cksum, fixpe, fixpehex, merkle — "
-        + _c09.RULE[:600] + " || C19 subset: ecdsa, ecdsasign || " + _msi.RULE)
+        + _c09.RULE[:600] + " || C19 subset: ecdsa, ecdsasign, every 4th canon op (canonical form vs the executable Exclusive-C14N specification; the deviations F16-* are listed for C05 too) || " + _msi.RULE)
 ASSUMPTIONS = list(_pe.ASSUMPTIONS) + list(_msi.ASSUMPTIONS) + ["the specifications are transcribed by hand into Relic/Spec/{Authenticode,PEChecksum,ApkV2,MsiDigest}.lean"]
 TRUSTED = list(_pe.TRUSTED) + list(_msi.TRUSTED) + ["external reference verifiers (jarsigner, JDK XML-DSig, openssl cms/ts, gpgv, dpkg) are NOT run: that half of C05 is outside this technique (DESIGN.md section 5, C05)"]
 UNPROVED = ["pe_hash_eq_msdoc_spec (the section-sorted wording of the Microsoft document; the flat form is proved)",
